@@ -83,6 +83,48 @@ pub fn observe_gnp(t: &mut Toks) -> String {
     }
 }
 
+/// `gnpdet n pnum pden directed seed`: C17 on graphs far above every size threshold of the crate - the seeded generator is
+/// called twice on the caller's thread and inside pools of 1, 2, 4 and 16 workers; every call must return the same graph
+/// (nodes in order, edge list in order), and the graph must have the structure C16 promises (nodes 0..n-1, no self-loop,
+/// no repeated pair, endpoints in range).
+pub fn observe_gnpdet(t: &mut Toks) -> String {
+    let n = t.next() as i32;
+    let pnum = t.next();
+    let pden = t.next() as u64;
+    let directed = t.next() != 0;
+    let seed = t.next() as u64;
+    let p = pnum as f64 / pden as f64;
+    let call = || -> Result<(Vec<i32>, Vec<(i32, i32)>), Error> {
+        random::fast_gnp_random_graph(n, p, directed, Some(seed)).map(|g| {
+            (g.get_all_nodes().iter().map(|x| x.name).collect(), g.get_all_edges().iter().map(|e| (e.u, e.v)).collect::<Vec<_>>())
+        })
+    };
+    let canon = |r: Result<(Vec<i32>, Vec<(i32, i32)>), Error>| match r {
+        Ok((nodes, mut edges)) => { edges.sort(); Ok((nodes, edges)) }
+        Err(e) => Err(err_code(&e.kind)),
+    };
+    let a = canon(call());
+    let mut diffs: Vec<String> = vec![];
+    if canon(call()) != a { diffs.push("second-call".to_string()); }
+    for k in [1usize, 2, 4, 16] {
+        let r = rayon::ThreadPoolBuilder::new().num_threads(k).build().unwrap().install(|| canon(call()));
+        if r != a { diffs.push(format!("pool{}", k)); }
+    }
+    let (structure, m) = match &a {
+        Ok((nodes, edges)) => {
+            let nodes_ok = nodes.len() == n.max(0) as usize && nodes.iter().enumerate().all(|(i, x)| *x == i as i32);
+            let mut seen: HashSet<(i32, i32)> = HashSet::new();
+            let edges_ok = edges.iter().all(|(u, v)| {
+                let key = if directed { (*u, *v) } else { (*u.min(v), *u.max(v)) };
+                u != v && *u >= 0 && *v >= 0 && *u < n && *v < n && seen.insert(key)
+            });
+            ((nodes_ok && edges_ok) as u8, edges.len())
+        }
+        Err(_) => (0, 0),
+    };
+    format!("i.same={}|i.diffs={}|i.structure={}|i.m={}", diffs.is_empty() as u8, if diffs.is_empty() { ".".to_string() } else { diffs.join(",") }, structure, m)
+}
+
 /// `gnpstat n pnum pden directed seed0 count`: edge counts over many seeds
 pub fn observe_gnpstat(t: &mut Toks) -> String {
     let n = t.next() as i32;
@@ -119,6 +161,14 @@ pub fn gen_case(rng: &mut Rng, family: &str, profile: &str, size: usize) -> Stri
             let c4 = rng.range(1, 24);           // c = c4 / 4
             let pden = (4 * n * n) as u64;
             gnp_request_k(n, c4.min(pden as i64 - 1).max(1), pden, directed, rng.below(1_000_000), 80)
+        }
+        "gnp" if profile == "huge" => {
+            // far above every size threshold used in the crate (20 nodes for the rayon branches; a generator that grew a parallel
+            // path would choose its own): 600 .. 2600 nodes, a few thousand expected edges
+            let n = *rng.pick(&[600i64, 1001, 1025, 1500, 2049, 2600]) + rng.range(0, 40);
+            let directed = rng.chance(50);
+            let c = rng.range(1, 8);
+            format!("gnpdet {} {} {} {} {}", n, c, n, directed as u8, crate::comm::special_seed(rng, 100000))
         }
         "gnp" => {
             let n = if profile == "large" { rng.range(41, 300) } else { rng.range(0, size as i64) };
